@@ -21,6 +21,7 @@ EXPLANATION = (
     "the 5 x 5 (inferred class, dtype) table: ValueError for unmatched text, i->j before complex parsing, separators, token-wise vs "
     "digit-wise dispatch of 0/1 text, explicit dtype applied last, digit-wise conversion by parsing not by code-point arithmetic, parsed rows keep their axes (no squeeze/ravel). "
     "Decided: these structural clauses (necessary conditions); not decided: floating-point round-trips, printed precision.")
+EXPLANATION += (" Added after the audit wave: C19.4 rcos allocates its result with a floating dtype of its own (an integer grid must not truncate the roll-off values); C19.6 0/1 text is read token-wise for every numeric dtype, numpy's scalar types included - one result per requested dtype (int, float, complex, np.int64, np.float64, np.complex128, np.float32, bool, None); np.issubdtype on type objects is folded by numpy's scalar hierarchy.")
 TRUSTED = ["CPython ast", "numpy log10/power semantics", "re._parser character classes", "scipy.special.erfc"]
 
 SI_EXP = {"f": -15, "p": -12, "n": -9, "µ": -6, "μ": -6, "u": -6, "m": -3, "": 0, "k": 3, "M": 6, "G": 9, "T": 12}
@@ -272,6 +273,13 @@ def rule_rcos(ctx):
                       f"roll-off argument differs from {w!r}")
     if not vals:
         ctx.unknown("C19.4", fi, fi.node, "rcos roll-off", "no cos() call found")
+    # the array branch stores the roll-off values (fractions) into a result array: one allocated "like" the frequency grid takes the
+    # grid's dtype, and an integer-typed grid (a list of ints, np.arange) truncates 0.5 at 1/(2T) to 0
+    for n in body_nodes(fi):
+        if isinstance(n, ast.Call) and src_of(n.func).split(".")[-1] in ("zeros_like", "empty_like", "ones_like", "full_like") and n.args:
+            has_dtype = any(k.arg == "dtype" for k in n.keywords) or len(n.args) >= (3 if src_of(n.func).endswith("full_like") else 2)
+            ctx.check("C19.4", has_dtype, fi, n, f"rcos result buffer: {src_of(n)}", "floating dtype whatever the dtype of the grid",
+                      "the result array inherits the dtype of `x`: for an integer-typed frequency grid the roll-off values are truncated (rcos([0,1,2,3,4], 0.5, 0.25)[2] is 0, not 1/2)")
 
 
 def rule_dec2bin(ctx):
@@ -551,27 +559,21 @@ def rule_str2array(ctx):
         ctx.check("C19.6", not bad, f2, rets[0].node, f"str2array [{kind}]: the parsed rows keep their axes", "1 row -> 1-D, several rows -> 2-D (no squeeze/ravel of the result)",
                   f"the parsed array goes through {bad[0][1] if bad and bad[0][0] == 'fn' else (bad[0][2] if bad else '')}(): every axis of length one is dropped, so an N x 1 text (one element per row) comes back one-dimensional")
     # text made of 0/1 digits: token-wise for every numeric dtype, digit-by-digit otherwise
-    wrong, undec = [], []
-    where = f2.node
-    for dt, token_wise in (("int", True), ("float", True), ("complex", True), ("bool", False), (None, False)):
+    for dt, token_wise in (("int", True), ("float", True), ("complex", True), ("numpy.int64", True), ("numpy.float64", True), ("numpy.complex128", True), ("numpy.float32", True),
+                           ("bool", False), (None, False)):
         rets, outs = run_case("bool", dt)
+        label = f"str2array: 0/1 text with dtype={dt}"
         if len(rets) != 1 or not isinstance(rets[0].value, Form):
-            undec.append(str(dt))
+            ctx.unknown("C19.6", f2, f2.node, label, f"{len(rets)} return paths")
             continue
-        where = rets[0].node
         v = rets[0].value
         tw, dw = has(v, is_resplit), has(v, is_listchars)
         if tw == dw:
-            undec.append(str(dt))
-        elif tw != token_wise:
-            wrong.append(str(dt))
-    if wrong:
-        ctx.violation("C19.6", f2, where, "str2array: 0/1 text dispatch on dtype", f"dtype {wrong} is routed to the wrong parser: text made of 0/1 digits must be read token-wise for every numeric dtype "
-                      "(int, float, complex) and digit-by-digit otherwise")
-    elif undec:
-        ctx.unknown("C19.6", f2, where, "str2array: 0/1 text dispatch on dtype", f"parser not identified for dtype {undec}")
-    else:
-        ctx.holds("C19.6", f2, where, "str2array: 0/1 text dispatch on dtype", "int/float/complex -> token-wise, bool/None -> digit-by-digit")
+            ctx.unknown("C19.6", f2, rets[0].node, label, "parser not identified (token-wise split / list of characters)")
+            continue
+        ctx.check("C19.6", tw == token_wise, f2, rets[0].node, label, "token-wise for a numeric dtype, digit by digit for bool / none",
+                  f"dtype {dt} is routed to the {'token-wise' if tw else 'digit-by-digit'} parser: text made of 0/1 digits must be read token-wise for every numeric dtype (int, float, complex and numpy's scalar "
+                  "types: np.int64 is not the builtin int, so `dtype == int` misses it and '1 0 1 10' comes back as five digits) and digit by digit otherwise")
     digitwise_validation(ctx, "C19.6")
     # an explicit dtype is applied to the parsed array last; none leaves the parsed array as it is
     ok = True
